@@ -290,6 +290,15 @@ func tMod(a, b *Term) *Term {
 }
 
 func tCmp(op string, a, b *Term) *Term {
+	// normal form: only "<" and its negation
+	switch op {
+	case ">":
+		return tCmp("<", b, a)
+	case ">=":
+		return tNot(tCmp("<", a, b))
+	case "<=":
+		return tNot(tCmp("<", b, a))
+	}
 	if a.isConst() && b.isConst() {
 		c := a.n.Cmp(b.n)
 		switch op {
